@@ -114,6 +114,24 @@ def zero_like(e):
     return Zero(e.ufl_shape, e.ufl_free_indices, e.ufl_index_dimensions) if isinstance(e, Expr) else e
 
 
+def grouped_form(form, **kw):
+    """First step of the documented low-level route to FormData."""
+    from ufl.algorithms.apply_algebra_lowering import apply_algebra_lowering
+    from ufl.algorithms.apply_derivatives import apply_derivatives
+    from ufl.algorithms.domain_analysis import group_form_integrals
+
+    form = apply_derivatives(apply_algebra_lowering(form))
+    return group_form_integrals(form, form.ufl_domains(), **kw)
+
+
+def formdata_lowlevel(grouped, **kw):
+    """build_integral_data + FormData constructed directly on a grouped form."""
+    from ufl.algorithms.domain_analysis import build_integral_data
+    from ufl.algorithms.formdata import FormData
+
+    return FormData(grouped, build_integral_data(grouped.integrals()), **kw)
+
+
 def fd_integrals_form(fd):
     """Re-assemble the integrals of FormData.integral_data into one form (order kept)."""
     itgs = []
